@@ -108,6 +108,41 @@ theorem peek1_isSome {rest : List Char} {off : Nat} (h : off < rest.length) :
   | none => have := peek1_none hp; omega
   | some p => exact ⟨p.1, p.2, rfl⟩
 
+theorem digraph_firsts : ∀ p ∈ Generated.digraphs,
+    p.1.toList.head? = some '<' ∨ p.1.toList.head? = some '%' ∨ p.1.toList.head? = some ':' := by
+  decide
+
+theorem triAt_first {c : Char} {l : List Char} {d : Char} (h : triAt (c :: l) = some d) : c = '?' := by
+  unfold triAt at h
+  split at h
+  · rename_i heq; simp at heq; exact heq.1
+  · cases h
+
+theorem diAt_first {c : Char} {l : List Char} {d : Char} (h : diAt (c :: l) = some d) :
+    c = '<' ∨ c = '%' ∨ c = ':' := by
+  unfold diAt at h
+  split at h
+  · rename_i c0 c1 tl heq
+    simp only [List.cons.injEq] at heq
+    obtain ⟨rfl, _⟩ := heq
+    simp only [Option.bind_eq_some_iff] at h
+    obtain ⟨v, hv, _⟩ := h
+    have := digraph_firsts _ (assoc_mem hv)
+    simpa using this
+  · cases h
+
+/-- a character that starts neither a trigraph nor a digraph is peeked as itself -/
+theorem peek1_raw {c : Char} {l : List Char} (h1 : c ≠ '?') (h2 : c ≠ '<') (h3 : c ≠ '%') (h4 : c ≠ ':') :
+    peek1 (c :: l) 0 = some (c, 1) := by
+  unfold peek1
+  simp only [List.drop_zero]
+  cases ht : triAt (c :: l) with
+  | some d => exact absurd (triAt_first ht) h1
+  | none =>
+    cases hd : diAt (c :: l) with
+    | some d => rcases diAt_first hd with h | h | h <;> contradiction
+    | none => rfl
+
 /-- a peeked newline or tab is the raw character -/
 theorem peek1_ws {rest : List Char} {off : Nat} {c : Char} {sz : Nat}
     (h : peek1 rest off = some (c, sz)) (hc : c = '\n' ∨ c = '\t') :
